@@ -64,8 +64,11 @@ class MemoryControllerHub:
         assert size == 1 or size == 2 or size == 4 or size == 8
         mc = self.get_memory_by_address(memaddrdesc.paddress.physicaladdress)
         if mc is not None:
-            data = mc.mem[memaddrdesc.paddress.physicaladdress - mc.beginning, size]
-            return to_int(data, size)
+            # an access running past the end of the device is clipped to the device
+            address = memaddrdesc.paddress.physicaladdress
+            available = min(size, mc.end - address)
+            data = bytes(mc.mem[address - mc.beginning, available])
+            return to_int(data.ljust(size, b'\x00'), size)
         return 0
 
     def __setitem__(self, memaddrdesc_size, value):
@@ -79,7 +82,10 @@ class MemoryControllerHub:
         assert size == 1 or size == 2 or size == 4 or size == 8
         mc = self.get_memory_by_address(memaddrdesc.paddress.physicaladdress)
         if mc is not None:
-            mc.mem[memaddrdesc.paddress.physicaladdress - mc.beginning, size] = from_int(value, size)
+            # an access running past the end of the device is clipped to the device
+            address = memaddrdesc.paddress.physicaladdress
+            available = min(size, mc.end - address)
+            mc.mem[address - mc.beginning, available] = from_int(value, size)[:available]
 
     def set_bits(self, memaddrdesc, size, ind, amount, bits):
         # mock
